@@ -37,6 +37,7 @@ EXPLANATION = (
     "against the guideline (no second statement of those formulas in the repository).")
 EXPLANATION += (' R-C09-2 additionally requires E to be the assessment parameter, not the material-group table value. R-C09-6: the early-failure position (searchsorted in the cumulative damage of all rows) is compared with the row count of those same rows in both lifetime properties of both calculators, which use the same test and report 0 repetitions / the failure position; P_RAM: x = (1 - D_1)/D_2 with the damage sums of pass 1 / pass 2, repetitions x + 1, cycles = repetitions times the pass-2 count.')
 EXPLANATION += (" R-C09-4 now decides each load safety factor per P_L case on the closed form of the returned value (definitions inlined, conditional expressions case-split): normal (L_max + alpha)/L_max, log-normal max(1, 10**alpha), alpha = (0.7 beta - 2) s | 0.7 beta s. R-C09-7: compute_beta hands the failure probability itself to the normal distribution function; forming 1 - P_A first (cancellation for small probabilities) is a violation.")
+EXPLANATION += (" R-C09-8: no root finder in the FKM-nonlinear modules is applied to the absolute value of its residual (kink at the root, no sign change); where compute_beta is the closed form -ppf(P_A) / isf(P_A), R-C09-7 records that as the negative standard-normal quantile.")
 ASSUMPTIONS = ["P_Z, P_D, N positive; d_1, d_2, d_RAJ negative (checked by the curve validators)",
                "statistics.NormalDist().inv_cdf is the standard normal quantile"]
 
@@ -74,7 +75,7 @@ class CurveNF:
 
 
 def run(ctx):
-    for r in (_curves, _pram, _constants, _beta, _half, _accumulation, _complement):
+    for r in (_curves, _pram, _constants, _beta, _half, _accumulation, _complement, _signed_residuals):
         ctx.attempt(r)
 
 
@@ -105,6 +106,61 @@ def _complement_sites(node, params):
     return seen, bad
 
 
+ROOT_FINDERS = ("root", "newton", "fsolve", "brentq", "brenth", "bisect", "ridder", "toms748", "root_scalar", "least_squares")
+C09_MODULES = ("pylife.strength.fkm_nonlinear.parameter_calculations", "pylife.strength.fkm_nonlinear.damage_calculator",
+               "pylife.strength.damage_parameter", "pylife.strength.woehler_fkm_nonlinear", "pylife.strength.fkm_load_distribution",
+               "pylife.strength.fkm_nonlinear.assessment_nonlinear_standard")
+
+
+def _unsigned_residuals(fn_node):
+    """root-finder calls whose function returns the absolute value of its residual: [(call, seen?)]"""
+    seen, bad = [], []
+    local = {n.name: n for n in ast.walk(fn_node) if isinstance(n, ast.FunctionDef) and n is not fn_node}
+    for c in ast.walk(fn_node):
+        if not (isinstance(c, ast.Call) and (call_name(c) or "").split(".")[-1] in ROOT_FINDERS and
+                "optimize" in (call_name(c) or "")):
+            continue
+        seen.append(c)
+        fn = c.args[0] if c.args else next((k.value for k in c.keywords if k.arg in ("fun", "func", "f")), None)
+        rets = []
+        if isinstance(fn, ast.Lambda):
+            rets = [fn.body]
+        elif isinstance(fn, ast.Name) and fn.id in local:
+            rets = [r.value for r in ast.walk(local[fn.id]) if isinstance(r, ast.Return) and r.value is not None]
+        for r in rets:
+            if isinstance(r, ast.Call) and (call_name(r) or "") in ("abs", "np.abs", "np.fabs", "np.absolute", "math.fabs"):
+                bad.append(c)
+                break
+    return seen, bad
+
+
+def _signed_residuals(ctx):
+    """R-C09-8: a root finder is applied to the signed residual.  The absolute value of a residual has a kink exactly at the
+    root and never changes sign; derivative-based searches (scipy.optimize.root, newton) from a fixed start value then stop
+    without success for some inputs - the safety index could not be computed for P_A = 0.486."""
+    prog = ctx.prog
+    ctx.rule("R-C09-8", floor=1, what="no root finder of the FKM-nonlinear modules is applied to the absolute value of its residual")
+    ex = ast.parse("def beta(P_A):\n    r = scipy.optimize.root(lambda x: abs(cdf(x) - P_A), x0=-0.6)\n"
+                   "    s = scipy.optimize.root(lambda x: cdf(x) - P_A, x0=-0.6)\n    return r, s\n").body[0]
+    sn, bad = _unsigned_residuals(ex)
+    if len(sn) != 2 or len(bad) != 1:
+        raise AnalysisError("R-C09-8 built-in example not matched")
+    n = 0
+    for key, fi in sorted(prog.functions.items()):
+        if fi.module.name not in C09_MODULES or fi.parent is not None:
+            continue
+        sn, bad = _unsigned_residuals(fi.node)
+        n += len(sn)
+        for c in bad:
+            ctx.violated(fi, c, "%s searches the root of the absolute value of its residual (%s): |f| has a kink at the root and no "
+                         "sign change, the search from a fixed start value fails for some inputs" % (fi.name, norm_text(c)[:90]),
+                         text="abs residual " + fi.name)
+        for c in sn:
+            if c not in bad:
+                ctx.holds(fi, c, "%s: root finder on a signed residual" % fi.name)
+    ctx.holds("pylife.strength", None, "%d root-finder call(s) in the FKM-nonlinear modules, none on |residual|" % n)
+
+
 def _complement(ctx):
     """R-C09-7: no cancellation in the safety index."""
     prog = ctx.prog
@@ -116,6 +172,16 @@ def _complement(ctx):
     seen, bad = _complement_sites(f.node, f.params)
     if not seen:
         raise AnalysisError("compute_beta: no call of a normal-distribution function found")
+    rets = [r_ for r_ in walk_function(f.node) if isinstance(r_, ast.Return) and r_.value is not None]
+    env_ = {s_.targets[0].id: s_.value for s_ in walk_function(f.node) if isinstance(s_, ast.Assign) and isinstance(s_.targets[0], ast.Name)}
+    if len(rets) == 1:
+        rv = rets[0].value
+        rv = env_.get(rv.id, rv) if isinstance(rv, ast.Name) else rv
+        t = norm_text(rv)
+        closed = [q for q in ("-scipy.stats.norm.ppf(P_A)", "-stats.norm.ppf(P_A)", "-norm.ppf(P_A)", "scipy.stats.norm.isf(P_A)",
+                              "stats.norm.isf(P_A)", "norm.isf(P_A)") if t == q.replace("P_A", f.params[0])]
+        if closed:
+            ctx.holds(f, rets[0], "compute_beta returns %s: the negative standard-normal quantile of the failure probability" % t)
     for c, b in bad:
         ctx.violated(f, c, "%s forms %s in floating point before the distribution function sees it: for small failure "
                      "probabilities the complement rounds (1 - p == 1 for p < 1.1e-16), the index is no longer the negative "
@@ -815,6 +881,17 @@ def variants():
     PCP = "src/pylife/strength/fkm_nonlinear/parameter_calculations.py"
     out.append(witness("beta = ppf(1 - P_A)", PCP, beta_closed("scipy.stats.norm.ppf(1 - P_A)"), "R-C09-7"))
     out.append(twin("beta = -ppf(P_A)", PCP, beta_closed("-scipy.stats.norm.ppf(P_A)")))
+
+    def beta_root(residual):
+        def f(tree):
+            g = find_func(tree, "compute_beta")
+            keep = [s_ for s_ in g.body if isinstance(s_, ast.Expr) and isinstance(s_.value, ast.Constant)]
+            g.body[:] = keep + ast.parse("result = scipy.optimize.root(lambda x: %s, x0=-0.6, tol=1e-10)\n"
+                                         "return -result.x[0]\n" % residual).body
+            return True
+        return f
+    out.append(witness("beta by a root search on |cdf - P_A|", PCP, beta_root("abs(scipy.stats.norm.cdf(x) - P_A)"), "R-C09-8"))
+    out.append(twin("beta by a root search on the signed residual", PCP, beta_root("scipy.stats.norm.cdf(x) - P_A")))
 
     def swap_d(tree):
         f = find_func(tree, "WoehlerCurvePRAM.calc_P_RAM")
